@@ -8,13 +8,15 @@ from props.netcommon import Rec, mk_packet
 PROPERTY = 'C11'
 
 
-def _source(env, Packet, dev, n, sort, entries, bursts=None, twin=None):
+def _source(env, Packet, dev, n, sort, entries, bursts=None, twin=None, precolour=False):
     def source():
         for k in range(n):
             if not (bursts and bursts[k]):
                 yield env.timeout(sym_num('g%d' % k, sort, 0))
             size = sym_int('s%d' % k, 1)
             pkt = mk_packet(Packet, env.now, size, k)
+            if precolour:
+                pkt.color = ('red', 'yellow', 'green')[k % 3]     # coloured by an earlier meter: this meter colours it anew
             entries.append((pkt, env.now))
             dev.put(pkt)
             if twin is not None:
@@ -111,7 +113,7 @@ def h_trtb(cfg):
         twin = TwoRateTokenBucket(env, cir, cbs, pir, pbs)
         twin_rec = Rec(env)
         twin.out = twin_rec
-    env.process(_source(env, Packet, tb, n, sort, entries, cfg.get('burst'), twin)())
+    env.process(_source(env, Packet, tb, n, sort, entries, cfg.get('burst'), twin, bool(cfg.get('precolour')))())
     try:
         env.run()
     except Exception as ex:  # noqa
@@ -192,6 +194,7 @@ def jobs(tier, seed):
                'cfg': {'cir': 8, 'cbs': 4, 'pir': 16, 'pbs': 6, 'n': n, 'sorts': 'int', 'burst': [0] + [1] * (n - 1)}})
     # a peak rate below the committed rate is a legal (if odd) configuration: the peak bucket still fills at PIR
     js.append({'harness': 'trtb', 'weight': 12, 'cfg': {'cir': 16, 'cbs': 4, 'pir': 8, 'pbs': 3, 'n': 3, 'sorts': 'int'}})
+    js.append({'harness': 'trtb', 'weight': 12, 'cfg': {'cir': 8, 'cbs': 4, 'pir': 16, 'pbs': 6, 'n': 3, 'sorts': 'int', 'precolour': True}})
     # bucket sizes of 0 are sizes like any other (nothing is ever saved up: every packet waits for its own tokens)
     js.append({'harness': 'trtb', 'weight': 10, 'cfg': {'cir': 8, 'cbs': 4, 'pir': 16, 'pbs': 0, 'n': 3, 'sorts': 'int'}})
     js.append({'harness': 'trtb', 'weight': 10, 'cfg': {'cir': 8, 'cbs': 0, 'pir': None, 'pbs': None, 'n': 3, 'sorts': 'int'}})
